@@ -21,7 +21,7 @@ pub fn def() -> PropDef {
     PropDef {
         id: "C05",
         level: "exploration",
-        rule: "every replica state reachable by offering a subset of a two-author universe over keys {'',a,a\\xff,a\\xff\\xff,ab,b,b\\x00,\\xff,\\xff\\xff} (children offered before parents so that prefix deletion leaves stale by-key index rows) x the full product query kind {flat author-key, flat key-author, latest-per-key} x author filter {any,A1,A2,unknown} x key filter {any, exact k, prefix p} x direction x include-empty x window {offset 0,1,2 x limit none,0,1,2} + six windows at the ends of the number range (limit 2^64-1 with offsets 0,1; offset 2 with limit 2^64-2; offset 2^64-1 alone, with limit 2^64-1; offset 2^64-2 with limit 2), plus get_exact for every (author,key,include_empty); a further state holds an author whose id ends in 0xFF next to raw entries of byte-neighbouring author ids, queried with the whole product for author filter {any, that author}; one big state (two authors, 150 keys, 225 entries, markers) is queried with windows around 64, 150, 225 and 256 entries; the oracle is a list comprehension over the reference dump; non-trivial = the reference answer before offset/limit is non-empty and the query has a filter, a non-default order or a window",
+        rule: "every replica state reachable by offering a subset of a two-author universe over keys {'',a,a\\xff,a\\xff\\xff,ab,b,b\\x00,\\xff,\\xff\\xff} (children offered before parents so that prefix deletion leaves stale by-key index rows) x the full product query kind {flat author-key, flat key-author, latest-per-key} x author filter {any,A1,A2,unknown} x key filter {any, exact k, prefix p} x direction x include-empty x window {offset 0,1,2 x limit none,0,1,2} + six windows at the ends of the number range (limit 2^64-1 with offsets 0,1; offset 2 with limit 2^64-2; offset 2^64-1 alone, with limit 2^64-1; offset 2^64-2 with limit 2), plus get_exact for every (author,key,include_empty); a further state holds an author whose id ends in 0xFF next to raw entries of byte-neighbouring author ids, queried with the whole product for author filter {any, that author}; one big state (two authors, 150 keys, 225 entries, markers) is queried with windows around 64, 150, 225 and 256 entries; family api: the big state and a sample of the small states are written and queried through the docs API of a real Engine (Doc::set_hash / del / get_many / get_exact: RPC actor, store actor, results streamed in chunks), all queries for the small states, windows around the stream's chunk size for the big one; the oracle is a list comprehension over the reference dump; non-trivial = the reference answer before offset/limit is non-empty and the query has a filter, a non-default order or a window",
         assumptions: &[
             "latest-per-key follows the statement and the API documentation: key filter before grouping, greatest timestamp among all authors, author filter after grouping; among several entries tied for the greatest timestamp any is accepted",
             "states hold at most 4 offered entries",
@@ -535,8 +535,161 @@ fn states_with_stale(tier: Tier) -> Vec<State> {
     out
 }
 
+// ---------------------------------------------------------------------------------------
+// Family api: the same questions asked the way applications ask them — `Doc::get_many` /
+// `get_exact` of the docs API on a real Engine (RPC actor, store actor, results streamed back in
+// chunks). The document is written through the API as well (same authors, clock pinned to each
+// entry's timestamp, so the entries are the ones of the universe).
+// ---------------------------------------------------------------------------------------
+
+type Row = ([u8; 32], Vec<u8>, u64, [u8; 32], u64);
+
+fn row(e: &SignedEntry) -> Row {
+    (e.author().to_bytes(), e.key().to_vec(), e.timestamp(), *e.content_hash().as_bytes(), e.content_len())
+}
+
+async fn api_state(node: &super::apifam::ApiNode, st: &State, queries: &[Q]) -> Vec<(&'static str, Option<Q>, String)> {
+    use n0_future::StreamExt;
+    let mut bad = vec![];
+    let api = node.docs.api();
+    let doc = match api.import_namespace(iroh_docs::Capability::Write(crate::universe::ns_secret(0))).await {
+        Ok(d) => d,
+        Err(e) => return vec![("MACHINERY", None, format!("import: {e:#}"))],
+    };
+    for sp in &st.offered {
+        crate::props::common::set_clock(crate::universe::T0 + sp.ts);
+        let a = crate::universe::author(sp.author).id();
+        let _ = match sp.val {
+            Val::Del => doc.del(a, sp.key.clone()).await.map(|_| ()),
+            v => {
+                let (h, l) = v.hash_len();
+                doc.set_hash(a, sp.key.clone(), h, l).await
+            }
+        };
+    }
+    crate::props::common::set_clock(crate::universe::NOW);
+    let dump = st.model.dump();
+    for q in queries {
+        let got: Result<Vec<Row>, String> = async {
+            let stream = doc.get_many(q.build()).await.map_err(|e| format!("{e:#}"))?;
+            tokio::pin!(stream);
+            let mut v = vec![];
+            while let Some(item) = stream.next().await {
+                let e = item.map_err(|e| format!("{e:#}"))?;
+                v.push((e.author().to_bytes(), e.key().to_vec(), e.timestamp(), *e.content_hash().as_bytes(), e.content_len()));
+            }
+            Ok(v)
+        }
+        .await;
+        let (accept, _) = reference(&dump, q);
+        let accept_rows: Vec<Vec<Row>> = accept.iter().map(|l| l.iter().map(row).collect()).collect();
+        match got {
+            Ok(g) if accept_rows.contains(&g) => {}
+            Ok(g) => bad.push(("api_query_equals_reference", Some(q.clone()), format!("Doc::get_many({q:?}) returned {} entries {:?}, the reference {} entries {:?}", g.len(), g.iter().map(|r| (r.0[0], String::from_utf8_lossy(&r.1).to_string(), r.2 - crate::universe::T0)).take(12).collect::<Vec<_>>(), accept_rows[0].len(), accept_rows[0].iter().map(|r| (r.0[0], String::from_utf8_lossy(&r.1).to_string(), r.2 - crate::universe::T0)).take(12).collect::<Vec<_>>()))),
+            Err(e) => bad.push(("api_query_equals_reference", Some(q.clone()), format!("Doc::get_many({q:?}) failed: {e}"))),
+        }
+    }
+    // point lookups
+    for e in &dump {
+        for include_empty in [true, false] {
+            let want = (include_empty || !is_del(e)).then(|| row(e));
+            let got = doc.get_exact(e.author(), e.key(), include_empty).await.map(|o| o.map(|e| (e.author().to_bytes(), e.key().to_vec(), e.timestamp(), *e.content_hash().as_bytes(), e.content_len())));
+            match got {
+                Ok(g) if g == want => {}
+                other => bad.push(("api_get_exact_agrees_with_query", None, format!("Doc::get_exact({:02x}, {:?}, {include_empty}) = {:?}, the document holds {:?}", e.author().to_bytes()[0], String::from_utf8_lossy(e.key()), other.map(|o| o.map(|r| r.2)).map_err(|e| e.to_string()), want.map(|r| r.2)))),
+            }
+        }
+    }
+    let _ = doc.close().await;
+    let _ = api.drop_doc(ns_id(0)).await;
+    bad
+}
+
+fn big_state() -> State {
+    let mut offered = vec![];
+    for i in 0..150u32 {
+        let key = format!("k{i:04}");
+        offered.push(Spec::new(0, 0, key.as_bytes(), 1 + (i % 3) as u64, if i % 10 == 0 { Val::Del } else { Val::X }));
+        if i % 2 == 0 {
+            // (no timestamp ties between the two authors: the reference enumerates every
+            // acceptable answer of a latest-per-key query, 2^ties of them)
+            offered.push(Spec::new(0, 1, key.as_bytes(), if i % 4 == 0 { 4 } else { 0 }, Val::Y));
+        }
+    }
+    state_of(offered)
+}
+
+fn api_cases(tier: Tier) -> Vec<(State, Vec<Q>)> {
+    let all = all_queries();
+    let mut cases = vec![];
+    // the big state: every kind x direction x filter, windows around the chunk size of the stream
+    let mut big_queries = vec![];
+    for kind in [Kind::FlatAuthorKey, Kind::FlatKeyAuthor, Kind::LatestPerKey] {
+        for af in [AF::Any, AF::A(0)] {
+            for kf in [KF::Any, KF::Prefix(b"k00".to_vec())] {
+                for desc in [false, true] {
+                    for include_empty in [true, false] {
+                        for (offset, limit) in [(0u64, None), (0, Some(64u64)), (0, Some(65)), (1, Some(128)), (63, None), (64, Some(1)), (224, None), (225, None), (0, Some(u64::MAX)), (1, Some(u64::MAX))] {
+                            big_queries.push(Q { kind, af, kf: kf.clone(), desc, include_empty, offset, limit });
+                        }
+                    }
+                }
+            }
+        }
+    }
+    cases.push((big_state(), big_queries));
+    // small states (every n-th of the stale-index family), all queries
+    let sts = states_with_stale(tier);
+    let step = if tier == Tier::Quick { sts.len() / 12 + 1 } else { sts.len() / 60 + 1 };
+    for st in sts.into_iter().step_by(step) {
+        cases.push((st, all.clone()));
+    }
+    cases
+}
+
+fn run_api_family(ctx: &Ctx, report: &mut Report) {
+    let cases: Vec<(usize, (State, Vec<Q>))> = api_cases(ctx.tier).into_iter().enumerate().filter(|(i, _)| ctx.mine((1u64 << 40) + *i as u64)).collect();
+    if cases.is_empty() {
+        return;
+    }
+    let results: anyhow::Result<Vec<(State, usize, Vec<(&'static str, Option<Q>, String)>)>> = crate::sut::block_on(async {
+        let node = super::apifam::api_node().await?;
+        for a in [0u8, 1] {
+            node.docs.api().author_import(crate::universe::author(a)).await?;
+        }
+        let mut out = vec![];
+        for (_, (st, qs)) in cases {
+            if std::env::var_os("VP_C05_DEBUG").is_some() {
+                eprintln!("debug: api state {}", serde_json::to_string(&st.offered).unwrap());
+            }
+            let bad = api_state(&node, &st, &qs).await;
+            out.push((st, qs.len(), bad));
+        }
+        super::apifam::shutdown(&node).await;
+        Ok(out)
+    });
+    match results {
+        Err(e) => report.machinery_error(format!("docs API family: cannot set up a node: {e:#}")),
+        Ok(rs) => {
+            for (st, n, bad) in rs {
+                report.evaluations += n as u64;
+                report.count("api_states", 1);
+                report.count("api_queries", n as u64);
+                for (o, q, d) in bad {
+                    if o == "MACHINERY" {
+                        report.machinery_error(d);
+                    } else {
+                        report.violation(o, json!({"api": true}), json!({"api": true, "offered": st.offered, "query": q}), d, 1 << 40);
+                    }
+                }
+            }
+        }
+    }
+}
+
 fn run(ctx: &Ctx, report: &mut Report) {
     crate::util::silence_panics();
+    run_api_family(ctx, report);
     let queries = all_queries();
     let sts = states_with_stale(ctx.tier);
     report.fact("states_total", json!(sts.len()));
@@ -557,15 +710,7 @@ fn run(ctx: &Ctx, report: &mut Report) {
     // windows around 64 and 256 entries and at the ends of the result
     if ctx.mine(sts.len() as u64 + 7) {
         let ordinal = sts.len() as u64 + 7;
-        let mut offered = vec![];
-        for i in 0..150u32 {
-            let key = format!("k{i:04}");
-            offered.push(Spec::new(0, 0, key.as_bytes(), 1 + (i % 3) as u64, if i % 10 == 0 { Val::Del } else { Val::X }));
-            if i % 2 == 0 {
-                offered.push(Spec::new(0, 1, key.as_bytes(), 1 + (i % 2) as u64 * 2, Val::Y));
-            }
-        }
-        let st = state_of(offered);
+        let st = big_state();
         let mut big_queries = vec![];
         for kind in [Kind::FlatAuthorKey, Kind::FlatKeyAuthor, Kind::LatestPerKey] {
             for af in [AF::Any, AF::A(0)] {
@@ -644,6 +789,20 @@ fn replay(case: &Value) -> anyhow::Result<(bool, String)> {
         Some(Value::Null) | None => all_queries(),
         Some(q) => vec![serde_json::from_value(q.clone())?],
     };
+    if case.get("api").and_then(|a| a.as_bool()) == Some(true) {
+        let bad: anyhow::Result<Vec<(&'static str, Option<Q>, String)>> = crate::sut::block_on(async {
+            let node = super::apifam::api_node().await?;
+            for a in [0u8, 1] {
+                node.docs.api().author_import(crate::universe::author(a)).await?;
+            }
+            let b = api_state(&node, &st, &queries).await;
+            super::apifam::shutdown(&node).await;
+            Ok(b)
+        });
+        let bad = bad?;
+        let out: String = bad.iter().map(|(o, _, d)| format!("FAILED {o}: {d}\n")).collect();
+        return Ok((!bad.is_empty(), format!("docs API, state of {} offered entries\n{out}", st.offered.len())));
+    }
     let mut local = Report::default();
     match catch(|| check_state(&st, &queries, &mut local, 0)) {
         Err(p) => Ok((true, format!("panic: {p}"))),
